@@ -433,10 +433,10 @@ func runC10(c *Ctx) (int, error) {
 	cov := Coverage{"states": plr.Distinct + gtr.Distinct + gpr.Distinct + st, "transitions": plr.Generated + gtr.Generated + gpr.Generated + tr,
 		"traces_validated_against_impl": total["ok"] + total["known"], "events_total": len(events), "evaluations": len(events),
 		"distinct_nontrivial": len(icases) + len(tcases), "samples": samples,
-		"rule":               fmt.Sprintf("(a) EVERY item sequence up to length %d over {opcode, flags, readonly, line/block comment, blank line, import, 5 definition kinds, stray byte, unterminated comment, unterminated string} with the verdict of ParserLoop.tla (model-checked: NoLeak, AttachExactlyOnce, NoSilentDrop, Terminates); (b) EVERY string of up to 3 lexemes (4 in thorough, sampled 1/23 by seed) over a 51-lexeme alphabet with every token kind and the lexical-error lexemes, judged by the property's append test; (c) valid schemas x every reader failure offset x {custom error, ErrUnexpectedEOF} x 3 reader styles; (d) EVERY [flags] member expression of up to 4 lexemes over {1, -1, 64, 0x10, A, <<, >>, |, &, (, )} in an unsigned and two signed enums; (e) EVERY token-prefix of the valid schemas of the C11 universe, judged by the append test", maxLen),
-		"flag_expressions":   len(ecases) * 3, "token_prefixes_of_valid_schemas": nprefix,
-		"item_sequences":     len(icases), "item_sequences_skipped_comment_reclosed": skippedOpen, "token_strings": len(tcases), "reader_fault_runs": nfault, "timeouts": timeouts,
-		"parserloop_states":  plr.Distinct, "open_deviations": devs, "exhaustive": false, "item_sequences_exhaustive_up_to": maxLen, "token_strings_exhaustive_up_to": 3}
+		"rule":             fmt.Sprintf("(a) EVERY item sequence up to length %d over {opcode, flags, readonly, line/block comment, blank line, import, 5 definition kinds, stray byte, unterminated comment, unterminated string} with the verdict of ParserLoop.tla (model-checked: NoLeak, AttachExactlyOnce, NoSilentDrop, Terminates); (b) EVERY string of up to 3 lexemes (4 in thorough, sampled 1/23 by seed) over a 51-lexeme alphabet with every token kind and the lexical-error lexemes, judged by the property's append test; (c) valid schemas x every reader failure offset x {custom error, ErrUnexpectedEOF} x 3 reader styles; (d) EVERY [flags] member expression of up to 4 lexemes over {1, -1, 64, 0x10, A, <<, >>, |, &, (, )} in an unsigned and two signed enums; (e) EVERY token-prefix of the valid schemas of the C11 universe, judged by the append test", maxLen),
+		"flag_expressions": len(ecases) * 3, "token_prefixes_of_valid_schemas": nprefix,
+		"item_sequences": len(icases), "item_sequences_skipped_comment_reclosed": skippedOpen, "token_strings": len(tcases), "reader_fault_runs": nfault, "timeouts": timeouts,
+		"parserloop_states": plr.Distinct, "open_deviations": devs, "exhaustive": false, "item_sequences_exhaustive_up_to": maxLen, "token_strings_exhaustive_up_to": 3}
 	return c.Finish("model_checking", cov, []string{"ParserLoop.tla is the reading of how attributes bind to definitions; sequences whose meaning the language leaves open (two opcodes in a row, a dangling attribute, an attribute before import) are 'unspec' and only judged for termination"}), nil
 }
 
